@@ -1,7 +1,7 @@
 """C19 — xargs exit status is the documented function of its children's outcomes."""
 import itertools
 
-from .. import prim
+from .. import audit, panic, prim
 from . import common as C
 
 X = C.X
@@ -9,8 +9,8 @@ META = {
     "explanation": "R1 exit table of xargs_main recovered from the enum-discriminant dispatch and compared row by row (0, 123, 124, 125, 126, 127, own errors 1); "
                    "R2 child-status classification in CommandBuilder::execute simulated on all outcomes (success / code / 255 / signal / spawn NotFound / other spawn error); "
                    "R3 CommandResult::combine is sticky (writes only while Success); R4 stop-at-once and continue-past-failure from the process_input decision graph (C04.R5 simulation re-used: "
-                   "a fatal outcome returns without another execute, a Failure is combined and the loop goes on); R5 error conversions keep the class (From<CommandExecutionError> wraps, every other error is a non-CommandExecution variant)",
-    "decides": "the mapping child outcome -> class -> exit status, and that classes propagate unchanged through `?`, on every path",
+                   "a fatal outcome returns without another execute, a Failure is combined and the loop goes on); R6 panic audit over everything reachable from xargs_main (same engine as C11: zone/interval proofs, categories, reviewed table) and the recursion of the limiter chain; R5 error conversions keep the class (From<CommandExecutionError> wraps, every other error is a non-CommandExecution variant)",
+    "decides": "the mapping child outcome -> class -> exit status, that classes propagate unchanged through `?` on every path, and (R6) that no panic-capable construct of xargs' own code is reachable without a proof or reviewed argument — a panic would end xargs with status 101 instead of the documented 1",
     "does_not_decide": "std's decoding of wait status into ExitStatus::code()/signal(); which io::ErrorKind the OS reports for a given exec failure",
 }
 
@@ -24,7 +24,7 @@ def variant_names(prog, adt):
     return {v["idx"]: v["name"] for v in a["variants"]} if a else {}
 
 
-def run(ctx):
+def _run_tables(ctx):
     prog = ctx.prog
     # ---- R1 exit table ---------------------------------------------------------------------------
     xm = ctx.fn("R1", X + "xargs_main")
@@ -298,3 +298,26 @@ def _walk(edges, res, v1, v2, cr, xe, ce):
             return None
         cur = nxt[0]
     return None
+
+
+def _audit(ctx):
+    prog = ctx.prog
+    audit.run(ctx, "R6", [X + "xargs_main"], "xargs")
+    for comp in panic.recursion_cycles(prog, [X + "xargs_main"]):
+        if any("LimiterCursor" in x for x in comp):
+            tn = prog.fns.get(X + "LimiterCursor::<'_>::try_next")
+            ok = False
+            if tn is not None:
+                # each step hands the *rest* of split_at_mut(1) to the next limiter: the slice shrinks by one per level
+                for b, t in tn.calls():
+                    if t.j.get("callee_name") in ("split_at_mut", "split_first_mut"):
+                        v = t.args[1].const_value() if len(t.args) > 1 else 1
+                        ok = v == 1 or t.j.get("callee_name") == "split_first_mut"
+            ctx.ob("R6", "recursion:limiter-chain", ok, "the limiter chain recurses once per installed limiter (at most four): each level passes the remainder of split_at_mut(1)", fn=tn, how="call-graph cycle + constant argument")
+        else:
+            ctx.ob("R6", "recursion:%s" % prim.short(comp[0]), False, "unreviewed recursion cycle %s" % [prim.short(x) for x in comp], how="call-graph cycle")
+
+
+def run(ctx):
+    _run_tables(ctx)
+    _audit(ctx)
